@@ -1,5 +1,6 @@
 import UtpVerif.Driver.Pure
 import UtpVerif.Driver.Wire
+import UtpVerif.Driver.Mtu
 /-!
 Line-protocol driver: one op per input line (`<component> <op> args…`), one output line per op.
 The Rust harness (`/verif/harness`) executes the same lines on the real code; `tools/check.py`
@@ -9,12 +10,14 @@ open UtpVerif.Driver UtpVerif.Model
 
 structure St where
   rtte : Rtte := Rtte.init
+  mtu : SegSizes := SegSizes.new true 1500 3
 
 def step (st : St) (line : String) : St × String :=
   match toks line with
   | ["nop"] => (st, "ok")
   | "seqnr" :: args => (st, stepSeqNr args)
   | "wire" :: args => (st, stepWire args)
+  | "mtu" :: args => let (r, o) := stepMtu st.mtu args; ({ st with mtu := r }, o)
   | "rtte" :: args => let (r, o) := stepRtte st.rtte args; ({ st with rtte := r }, o)
   | _ => (st, "bad-op")
 
